@@ -17,7 +17,7 @@ DIRS = {"L": 0, "R": 1, "N": 2}
 # over `k` tapes; DTM/NTM views exist when k == 1.
 
 
-NASTY = ["\n", "\t", "$", "(", "\\", "*", ";", "[", "|", "?", "\r", "'", "{", "}"]
+NASTY = ["\n", "\t", "$", "(", "\\", "*", ";", "[", "|", "?", "\r", "'", "{", "}", "^", "_", "!"]
 
 
 def translate_symbols(md, mapping):
